@@ -23,8 +23,11 @@ import (
 // registry (httptest server; the legacy client builds its own http.Client).
 //
 // case {"kind":"push-legacy","layers":[hex...],"config":hex|null,
-//       "head":{layerhex:status},"post":{layerhex:status},"manifest":status}
-// Only faults that the legacy client does not retry with sleeps are scripted (HEAD status, POST status, manifest status).
+//       "head":{layerhex:status},"post":{layerhex:status},"manifest":status,
+//       "patch_fail":{layerhex:n},"commit_fail":{layerhex:n}}
+// patch_fail / commit_fail: the first n PATCH requests (part upload) / commit PUTs (finalising the upload) of that layer are
+// answered 500.  The legacy client retries these with real sleeps of 1, 2, 4, ... s (maxRetries = 6, so n >= 6 means
+// "never accepted", 63 s): such cases are run by props/c09.py in a process of their own, in parallel with the rest.
 func VerifC09Legacy(c map[string]any) any {
 	dir, err := os.MkdirTemp("", "c09l-")
 	if err != nil {
@@ -37,6 +40,10 @@ func VerifC09Legacy(c map[string]any) any {
 
 	head, _ := c["head"].(map[string]any)
 	post, _ := c["post"].(map[string]any)
+	patchFail, _ := c["patch_fail"].(map[string]any)
+	commitFail, _ := c["commit_fail"].(map[string]any)
+	patches := map[string]int{}
+	commits := map[string]int{}
 	manStatus := 200
 	if v, ok := c["manifest"].(float64); ok {
 		manStatus = int(v)
@@ -78,12 +85,24 @@ func VerifC09Legacy(c map[string]any) any {
 			w.WriteHeader(st)
 		case r.Method == "PATCH" && strings.HasPrefix(p, "/v2/up/"):
 			lh := strings.TrimPrefix(p, "/v2/up/")
-			log = append(log, "patch "+lh)
+			patches[lh]++
+			if patches[lh] <= status(patchFail, lh, 0) {
+				log = append(log, "patch "+lh+" 500")
+				w.WriteHeader(500)
+				return
+			}
+			log = append(log, "patch "+lh+" 202")
 			w.Header().Set("Location", srv.URL+"/v2/up/"+lh)
 			w.WriteHeader(202)
 		case r.Method == "PUT" && strings.HasPrefix(p, "/v2/up/"):
 			lh := strings.TrimPrefix(p, "/v2/up/")
-			log = append(log, "commit "+lh)
+			commits[lh]++
+			if commits[lh] <= status(commitFail, lh, 0) {
+				log = append(log, "commit "+lh+" 500")
+				w.WriteHeader(500)
+				return
+			}
+			log = append(log, "commit "+lh+" 201")
 			w.WriteHeader(201)
 		case r.Method == "PUT" && strings.Contains(p, "/manifests/"):
 			log = append(log, fmt.Sprintf("manifest-put %d", manStatus))
